@@ -11,6 +11,8 @@ package consensus
 import (
 	"errors"
 	"fmt"
+	"slices"
+	"strings"
 
 	"github.com/nspcc-dev/neo-go/pkg/crypto/keys"
 	"github.com/nspcc-dev/neo-go/pkg/io"
@@ -24,20 +26,29 @@ import (
 type C19Prop struct {
 	N       int     `json:"n"`
 	SRIH    bool    `json:"srih,omitempty"`
+	Lim     C19Lim  `json:"lim"` // small block limits (zero value: defaults)
 	Pools   [][]int `json:"pools"`
 	Victim  int     `json:"victim"`  // which of the primary's pending PrepareRequest copies is replaced
-	Corrupt string  `json:"corrupt"` // none | prevhash | version | stateroot | timestamp | toomany | unknowntx
+	Corrupt string  `json:"corrupt"` // none | prevhash | version | stateroot | timestamp | toomany | unknowntx | overfull
 	Bit     int     `json:"bit"`     // which bit of the hash is flipped
 }
 
 func c19GenProp(t *rapid.T) C19Prop {
 	c := C19Prop{N: rapid.SampledFrom([]int{4, 4, 7}).Draw(t, "n")}
 	c.SRIH = rapid.Bool().Draw(t, "srih")
-	c.Pools = c19GenPools(t, c.N)
+	if rapid.Bool().Draw(t, "limited") {
+		c.Lim = c19GenLim(t)
+		c.Pools = c19GenStuffedPools(t, c.N, c.Lim)
+	} else {
+		c.Pools = c19GenPools(t, c.N)
+	}
 	c.Victim = rapid.IntRange(0, c.N-2).Draw(t, "victim")
 	kinds := []string{"none", "prevhash", "version", "timestamp", "toomany", "unknowntx"}
 	if c.SRIH {
 		kinds = append(kinds, "stateroot", "stateroot")
+	}
+	if c.Lim.Cap() > 0 {
+		kinds = append(kinds, "none", "none", "overfull", "overfull", "overfull")
 	}
 	c.Corrupt = rapid.SampledFrom(kinds).Draw(t, "corrupt")
 	c.Bit = rapid.IntRange(0, 255).Draw(t, "bit")
@@ -57,6 +68,7 @@ func c19CheckProp(c C19Prop, o *vt.Obs) error {
 	if err != nil {
 		return fmt.Errorf("HARNESS: network: %w", err)
 	}
+	corrupt := c.Corrupt
 	err = func() error {
 		if err := net.start(); err != nil {
 			return err
@@ -85,6 +97,7 @@ func c19CheckProp(c C19Prop, o *vt.Obs) error {
 		}
 		req := p.payload.(*prepareRequest)
 		bit := c19Mod(c.Bit, 256)
+		corrupt = c.Corrupt
 		switch c.Corrupt {
 		case "none":
 		case "prevhash":
@@ -111,6 +124,27 @@ func c19CheckProp(c C19Prop, o *vt.Obs) error {
 			h[bit/8] = 1 << (bit % 8)
 			h[31] ^= 0x5A
 			req.transactionHashes = append(req.transactionHashes, h)
+		case "overfull":
+			// One more valid transaction (known to the backup) on top of a proposal that fills the count or the
+			// system fee limit exactly. If the proposal is not exactly full the case degrades to the control.
+			var fee int64
+			for _, h := range req.transactionHashes {
+				fee += w.txMeta[h].sysFee
+			}
+			full := (c.Lim.MaxTx > 0 && len(req.transactionHashes) == int(net.cfg.MaxTransactionsPerBlock)) ||
+				(c.Lim.FeeTxs > 0 && fee == net.cfg.MaxBlockSystemFee)
+			spare := -1
+			for k := 0; k < c19NTx && full; k++ {
+				if c19IsPlain(k) && dst.bc.GetMemPool().ContainsKey(w.txHash[k]) && !slices.Contains(req.transactionHashes, w.txHash[k]) {
+					spare = k
+					break
+				}
+			}
+			if spare < 0 {
+				corrupt = "none"
+			} else {
+				req.transactionHashes = append(slices.Clone(req.transactionHashes), w.txHash[spare])
+			}
 		default:
 			return fmt.Errorf("bad case: corrupt=%q", c.Corrupt)
 		}
@@ -132,7 +166,7 @@ func c19CheckProp(c C19Prop, o *vt.Obs) error {
 		if bw.Err != nil {
 			return net.fail("HARNESS: %v", bw.Err)
 		}
-		forged := &c19Msg{kind: c19MsgPayload, from: m.from, to: m.to, raw: bw.Bytes(), desc: "FORGED(" + c.Corrupt + ") " + m.desc}
+		forged := &c19Msg{kind: c19MsgPayload, from: m.from, to: m.to, raw: bw.Bytes(), desc: "FORGED(" + corrupt + ") " + m.desc}
 		net.tolerateInvalidRequest = true
 		for i, pm := range net.pending { // the forged copy replaces the original one
 			if pm == m {
@@ -167,15 +201,15 @@ func c19CheckProp(c C19Prop, o *vt.Obs) error {
 				}
 			}
 		}
-		o.Label("corrupt=" + c.Corrupt)
-		if c.Corrupt == "none" {
+		o.Label("corrupt=" + corrupt)
+		if corrupt == "none" {
 			if !responded {
-				return net.fail("control: backup %d did not answer the unaltered (re-signed) proposal of the legitimate primary", dst.idx)
+				return net.fail("control: backup %d did not answer the unaltered (re-signed) proposal of the legitimate primary (limits %+v)", dst.idx, c.Lim)
 			}
 			return nil
 		}
 		if responded {
-			return net.fail("backup %d answered a proposal of the legitimate primary whose %s is wrong with a PrepareResponse (it accepted it)", dst.idx, c.Corrupt)
+			return net.fail("backup %d answered a proposal of the legitimate primary whose %s is wrong with a PrepareResponse (it accepted it; limits %+v)", dst.idx, corrupt, c.Lim)
 		}
 		return nil
 	}()
@@ -185,7 +219,12 @@ func c19CheckProp(c C19Prop, o *vt.Obs) error {
 		return nil
 	}
 	o.Labelf("n=%d", c.N)
-	if c.Corrupt != "none" {
+	for l := range net.labels {
+		if strings.HasPrefix(l, "full: ") || l == "proposal-exactly-full" {
+			o.Label(l)
+		}
+	}
+	if corrupt != "none" || net.labels["proposal-exactly-full"] {
 		o.NonTrivial()
 	}
 	return err
